@@ -14,6 +14,21 @@ NOTES = {
  "C11-1": "missed by C11 at first, caught by C10; C11 now runs one engine shape of the UDP job walk (Trace_UdpJob: AtMostOneSend, ReleaseOnce) itself",
  "C03-1": "missed by C03 and C19 at first; caught by C19 after Ecs.tla got a sixth client whose /24 is the zero-extension of other clients' /16 announcement",
  "C05-1": "missed at first (needs an alias entry validated and its separately cached target not); caught by C06 after the Lease.tla histories were replayed with per-entry AD and judged by the clause 'AD only if every piece of a composed reply was validated' (message, byte and wire-born routes)",
+ "C06-2": "missed at first; caught after the AD discipline was judged on replies synthesised from an RFC 8020 cut (EcsDenial.tla driver on the real edns+cache handlers, wire-born with direct pack)",
+ "C06-3": "missed by C06, caught by C10 after the per-request OPT hygiene tier (job-owned edns writer slot in UdpSlab/TcpConn, cookie provenance on every reply)",
+ "C07-1": "missed at first; caught after the two-question pre-datagram (twoq) was added to Bailiwick.tla and the replay",
+ "C07-2": "missed at first (IPv6 glue was not exercised); caught after the out6 glue kind (AAAA glue for an out-of-zone NS host, IPv6 access on)",
+ "C10-2": "missed at first; caught after reply size classes (small / large / huge) were added to TcpConn.tla and scripted pipelined orders are played on TCP and DoT",
+ "C10-3": "missed at first; caught after the per-request OPT hygiene tier",
+ "C12-1": "missed at first; caught after the minimisation-fallback stress case (root mishandles minimised probes; ever-deeper referrals below) was added to the topology tier",
+ "C12-3": "MISSED: the per-object DNSKEY-candidate cap is a local check with no counter and no packet; nothing outside the validator observes it (a reply that needs more than the cap may still legitimately be either an answer found early or SERVFAIL)",
+ "C13-1": "missed at first; caught by the zone-failure pipeline tier (ZoneFail.tla over N-server zones, oracle from the scripted servers' own logs)",
+ "C13-2": "missed at first; caught by the alias-completion failure outcome in the request-level tier",
+ "C17-3": "missed at first; caught after the default-chain gate replay switched the client limiter on and sends a denied source a changing cookie",
+ "C19-1": "missed at first; caught by EcsDenial.tla + replay (wire-born ECS request with forwarding off must not consume or create a shared cut)",
+ "C20-1": "missed at first (a translated non-embedding was booked as drift); now a violation: an ip6.arpa name is translated only if it is the RFC 6052 embedding of the address it maps to",
+ "C20-2": "missed at first; caught after stacked EDE options (an unrelated EDE in front of the DNSSEC one) were added to the decision-table replay",
+ "C20-3": "missed at first; caught after the configuration with the operator prefix listed before the well-known one (both2)",
  "C08-1": "missed at first; caught after the slowns shape (un-glued NS host whose address lookup outlasts the lease, directly below the root) was added to the pipeline tier",
  "C08-2": "missed at first; caught after the pipeline tier got wire-born client queries and background refresh (threshold 90 %) as scenario shapes",
 }
